@@ -26,6 +26,9 @@ pub struct Case {
     /// pushes into), cycled; empty = an in-memory cursor / vector that transfers everything asked for
     #[serde(default)]
     pub ssplit: Vec<u32>,
+    /// the streaming encoders are flushed after every n-th write (0: only once, at the end)
+    #[serde(default)]
+    pub flush_every: u8,
 }
 
 /// An in-memory stream that moves at most `split[i]` bytes in its i-th transfer.
@@ -131,26 +134,32 @@ fn chunks<'a>(d: &'a [u8], split: &[u32]) -> Vec<&'a [u8]> {
     out
 }
 
-fn stream_compress_sync(c: u8, d: &[u8], split: &[u32], ssplit: &[u32]) -> std::io::Result<(Vec<u8>, usize)> {
+fn stream_compress_sync(c: u8, d: &[u8], split: &[u32], ssplit: &[u32], flush_every: u8) -> std::io::Result<(Vec<u8>, usize)> {
     let mut out = Trickle::new(&[], ssplit);
     let parts = chunks(d, split);
     {
         let mut w = util::compress(codec::to_lib(c), &mut out)?;
-        for p in &parts {
+        for (i, p) in parts.iter().enumerate() {
             w.write_all(p)?;
+            if flush_every > 0 && (i + 1) % usize::from(flush_every) == 0 && i < 64 {
+                w.flush()?;
+            }
         }
         w.flush()?;
     }
     Ok((out.sink, parts.len()))
 }
 
-fn stream_compress_async(c: u8, d: &[u8], split: &[u32], ssplit: &[u32]) -> std::io::Result<(Vec<u8>, usize)> {
+fn stream_compress_async(c: u8, d: &[u8], split: &[u32], ssplit: &[u32], flush_every: u8) -> std::io::Result<(Vec<u8>, usize)> {
     let mut out = Trickle::new(&[], ssplit);
     let parts = chunks(d, split);
     {
         let mut w = util::compress_async(codec::to_lib(c), &mut out)?;
-        for p in &parts {
+        for (i, p) in parts.iter().enumerate() {
             block_on(w.write_all(p))?;
+            if flush_every > 0 && (i + 1) % usize::from(flush_every) == 0 && i < 64 {
+                block_on(w.flush())?;
+            }
         }
         block_on(w.close())?;
     }
@@ -221,8 +230,8 @@ fn check(c: &Case, py: bool) -> CaseResult {
     }
     // encoders
     let one = guarded("compress_all", || util::compress_all(codec::to_lib(c.codec), &d))?.map_err(|e| Fail::new(format!("C14/err/compress_all/{cn}"), format!("{e}")))?;
-    let (ss, nw) = e("compress(streaming)", guarded("compress", || stream_compress_sync(c.codec, &d, &c.wsplit, &c.ssplit))?)?;
-    let (sa, _) = e("compress_async", guarded("compress_async", || stream_compress_async(c.codec, &d, &c.wsplit, &c.ssplit))?)?;
+    let (ss, nw) = e("compress(streaming)", guarded("compress", || stream_compress_sync(c.codec, &d, &c.wsplit, &c.ssplit, c.flush_every))?)?;
+    let (sa, _) = e("compress_async", guarded("compress_async", || stream_compress_async(c.codec, &d, &c.wsplit, &c.ssplit, c.flush_every))?)?;
     let mut nr = 0;
     for (ename, comp) in [("compress_all", &one), ("compress-streaming", &ss), ("compress_async", &sa)] {
         // upstream crates decode it, consuming the whole stream
@@ -258,6 +267,7 @@ fn check(c: &Case, py: bool) -> CaseResult {
         .label(c.seed % 3 == 0 && c.codec != 1, "after-failed-decompress")
         .label(nw >= 2, "multi-write")
         .label(nr >= 2, "multi-read")
+        .label(c.flush_every > 0 && nw > usize::from(c.flush_every), "flush-between-writes")
         .label(!c.ssplit.is_empty(), "short-transfers-in-underlying-stream")
         .label(c.ssplit.first().map_or(false, |k| *k < 4), "first-transfer-shorter-than-a-codec-magic")
         .label(true, super::c01::codec_label(c.codec)))
@@ -325,7 +335,7 @@ fn python_batch(ctx: &Ctx) {
 fn strategy(max_len: u32) -> impl Strategy<Value = Case> {
     let len = prop_oneof![1 => Just(0u32), 1 => Just(1u32), 4 => 2u32..300, 3 => 300u32..20_000, 1 => 20_000u32..=max_len];
     let split = || prop_oneof![1 => Just(vec![]), 2 => (1u32..10).prop_map(|k| vec![k]), 3 => proptest::collection::vec(prop_oneof![3 => 1u32..20, 2 => 20u32..5000, 1 => 5000u32..100_000], 1..8)];
-    (prop_oneof![6 => 0u8..3, 2 => 3u8..6, 2 => 6u8..9], len, any::<u32>(), 1u8..=4, split(), split(), prop_oneof![2 => Just(vec![]), 1 => (1u32..6).prop_map(|k| vec![k]), 2 => proptest::collection::vec(prop_oneof![3 => 1u32..8, 2 => 8u32..5000], 1..6)]).prop_map(|(kind, len, seed, codec, wsplit, rsplit, ssplit)| Case { kind, len, seed, codec, wsplit, rsplit, ssplit })
+    (prop_oneof![6 => 0u8..3, 2 => 3u8..6, 2 => 6u8..9], len, any::<u32>(), 1u8..=4, split(), split(), prop_oneof![2 => Just(vec![]), 1 => (1u32..6).prop_map(|k| vec![k]), 2 => proptest::collection::vec(prop_oneof![3 => 1u32..8, 2 => 8u32..5000], 1..6)], prop_oneof![3 => Just(0u8), 2 => Just(1u8), 1 => 2u8..6]).prop_map(|(kind, len, seed, codec, wsplit, rsplit, ssplit, flush_every)| Case { kind, len, seed, codec, wsplit, rsplit, ssplit, flush_every })
 }
 
 pub fn run(ctx: &Ctx) {
@@ -339,15 +349,15 @@ pub fn run(ctx: &Ctx) {
     let py = true;
     run_proptest(ctx, "codec-pairings", PtCfg::new(ctx.lanes, ctx.tier.pick(300, 5000)), || strategy(ctx.tier.pick(262_144, 1_048_576)), |c| check(c, py));
     let big: Vec<Case> = (0..ctx.tier.pick(4, 16))
-        .map(|i| Case { kind: (i % 3) as u8, len: ctx.tier.pick(262_144, if i % 4 == 2 { 1 << 20 } else { 8 << 20 }), seed: 77 + i as u32, codec: 1 + (i % 4) as u8, wsplit: vec![65_536, 1, 4096], rsplit: vec![8192, 3], ssplit: if i % 2 == 0 { vec![] } else { vec![1, 3, 70_000] } })
+        .map(|i| Case { kind: (i % 3) as u8, len: ctx.tier.pick(262_144, if i % 4 == 2 { 1 << 20 } else { 8 << 20 }), seed: 77 + i as u32, codec: 1 + (i % 4) as u8, wsplit: vec![65_536, 1, 4096], rsplit: vec![8192, 3], ssplit: if i % 2 == 0 { vec![] } else { vec![1, 3, 70_000] }, flush_every: (i % 3) as u8 })
         .collect();
     run_list(ctx, "codec-pairings-large", &big, |c| check(c, false));
     // just above 1 MiB for every codec in every tier (buffer / member-size thresholds of the codecs)
-    let mib: Vec<Case> = (1..=4u8).map(|c| Case { kind: if c % 2 == 0 { 2 } else { 0 }, len: (1 << 20) + 1 + u32::from(c), seed: 5 + u32::from(c), codec: c, wsplit: vec![], rsplit: vec![], ssplit: vec![] }).collect();
+    let mib: Vec<Case> = (1..=4u8).map(|c| Case { kind: if c % 2 == 0 { 2 } else { 0 }, len: (1 << 20) + 1 + u32::from(c), seed: 5 + u32::from(c), codec: c, wsplit: vec![], rsplit: vec![], ssplit: vec![], flush_every: 0 }).collect();
     run_list(ctx, "codec-pairings-above-1MiB", &mib, |c| check(c, false));
     run_list(ctx, "unknown-compression", &[0u8, 1u8], check_unknown);
     python_batch(ctx);
-    for c in ["empty-input", "one-byte", "large-input", "multi-write", "multi-read", "starts-with-codec-magic", "already-compressed-payload", "after-failed-decompress", "short-transfers-in-underlying-stream", "first-transfer-shorter-than-a-codec-magic", "internal-brotli", "internal-gzip", "internal-zstd", "internal-none"] {
+    for c in ["empty-input", "one-byte", "large-input", "multi-write", "multi-read", "starts-with-codec-magic", "already-compressed-payload", "after-failed-decompress", "flush-between-writes", "short-transfers-in-underlying-stream", "first-transfer-shorter-than-a-codec-magic", "internal-brotli", "internal-gzip", "internal-zstd", "internal-none"] {
         ctx.rec.floor(c, 4);
     }
 }
